@@ -61,8 +61,11 @@ def steps_observed(H):
 
 
 def check_single(A, v, Qd, Hd, m, tol, dt, kdim, detectable, K=None, assert_count=True, assert_padding=True,
-                 steps=None):
-    """Property clauses on one (Q, H).  Returns list of (clause, detail, extra attrs)."""
+                 steps=None, hs=None):
+    """Property clauses on one (Q, H).  Returns list of (clause, detail, extra attrs).
+    hs: reference residual norms h_(j+1,j), j = 1.. (random cases): the loop may legitimately stop at a step whose
+    reference residual is within 100x of the threshold, and a breakdown counts as detectable only if the reference
+    residual is 100x below it."""
     out = []
     n = A.shape[0]
     rt, eps = kf.tol_of(dt)
@@ -77,6 +80,14 @@ def check_single(A, v, Qd, Hd, m, tol, dt, kdim, detectable, K=None, assert_coun
     vv = v.astype(np.complex128)
     # number of Arnoldi steps made: from the loop recorder (a computed column of H can be entirely zero)
     s_obs = steps_observed(H) if steps is None else steps
+    kdim_in, detectable_in = kdim, detectable
+    if hs is not None and kdim is not None and len(hs):
+        if kdim < n and kdim <= len(hs) and not hs[kdim - 1] <= 1e-2 * tol * hs[0]:
+            detectable = False          # the reference does not confirm a residual safely below the threshold
+        amb = [j + 1 for j in range(min(len(hs), kdim)) if hs[j] <= 1e2 * tol * hs[0]]
+        if amb and amb[0] <= s_obs < min(cap, kdim):
+            kdim = s_obs                # numerically invariant subspace: a stop here is as good as a breakdown
+            detectable = True
     exhausted = kdim is not None and kdim <= cap
     s_exp = min(cap, kdim) if kdim is not None else None
     ortho = min(m + 1, kdim) if kdim is not None else None
@@ -105,6 +116,7 @@ def check_single(A, v, Qd, Hd, m, tol, dt, kdim, detectable, K=None, assert_coun
     if d > rt:
         out.append(("first_column", f"|Q[:,0] - v/||v||| = {kf.fmt(d)}", {}))
     # orthonormal columns: m+1 for m <= n, the n-step factorisation for m > n
+    orth_lost = None
     creq = min(cap, me) + 1
     if kdim is None:
         creq = 1      # unknown Krylov dimension: nothing can be demanded beyond the first column
@@ -114,10 +126,15 @@ def check_single(A, v, Qd, Hd, m, tol, dt, kdim, detectable, K=None, assert_coun
         lead = creq if ortho is None else min(ortho, creq)
         dl = float(np.abs(G[:lead, :lead] - np.eye(lead)).max())
         bad = [j for j in range(creq) if np.abs(G[:, j] - np.eye(creq)[:, j]).max() > rt]
+        # first column that is not orthonormal to its predecessors: single-pass Gram-Schmidt loses orthogonality
+        # gradually (late onset), a wrong inner product or recurrence fails from the start
+        first = next((j for j in range(lead) if np.abs(G[:j + 1, j] - np.eye(creq)[:j + 1, j]).max() > rt), None)
+        onset = None if first is None else ("late" if first >= max(8, creq // 2) else "early")
+        orth_lost = onset
         out.append(("orthonormal", f"max|Q^H Q - I| = {kf.fmt(d)} on the first {creq} columns (bad columns {bad}, "
                     f"norms {[float(kf.fmt(abs(G[j, j]) ** .5)) for j in bad[:4]]}; leading {lead}: {kf.fmt(dl)})",
                     {"trailing_only": bool(ortho is not None and dl <= rt and lead < creq), "exhausted": bool(exhausted),
-                     "n_bad": len(bad)}))
+                     "n_bad": len(bad), "onset": onset, "first_bad": first}))
     # upper Hessenberg, non-negative real sub-diagonal
     msgs = []
     Hfull = Hd.astype(np.complex128)
@@ -158,7 +175,7 @@ def check_single(A, v, Qd, Hd, m, tol, dt, kdim, detectable, K=None, assert_coun
         d = abs(Hfull[s_exp, s_exp - 1])
         if d > max(rt, 10 * tol) * sA:
             out.append(("relation", f"Krylov space exhausted after {s_exp} steps but H[{s_exp},{s_exp - 1}] = {kf.fmt(d)}",
-                        {"which": "breakdown_residual"}))
+                        {"which": "breakdown_residual", "orth_lost": orth_lost}))
     # span
     if K is not None:
         stol = 50 * rt
@@ -168,7 +185,7 @@ def check_single(A, v, Qd, Hd, m, tol, dt, kdim, detectable, K=None, assert_coun
             if d > stol:
                 out.append(("span", f"K_{j} not in span(Q[:, :{j}]): relative defect {kf.fmt(d)}", {"j": j}))
                 break
-    return out, count_bad
+    return out, (count_bad or kdim != kdim_in or detectable != detectable_in)
 
 
 def check_same_as_n(Qd, Hd, Qn, Hn, n, m):
@@ -188,7 +205,9 @@ def check_eigs(A, ev, Vd, m, tol, dt, want, etol_rel, s_exp):
     rt, _ = kf.tol_of(dt)
     n = A.shape[0]
     sA = max(float(np.abs(A).sum(1).max()), 1e-300)
-    if ev.shape != (m, ) or Vd.shape != (n, m):
+    # the docstring promises max_iters values; an implementation that trims to the steps made is accepted as well
+    k = ev.shape[0] if ev.ndim == 1 else -1
+    if ev.ndim != 1 or Vd.shape != (n, k) or not 1 <= k <= m:
         return [("shape", f"arnoldi_eigs shapes {ev.shape} {Vd.shape} for max_iters={m}", {})]
     if not (np.all(np.isfinite(ev)) and np.all(np.isfinite(Vd))):
         return [("finite", "non-finite eigenpairs", {})]
@@ -199,7 +218,7 @@ def check_eigs(A, ev, Vd, m, tol, dt, want, etol_rel, s_exp):
                     f"{np.round(ev, 5).tolist()})", {}))
     if extra:
         zeros = all(abs(x) <= etol for x in extra)
-        kind = "padding_zeros" if zeros and len(extra) == m - s_exp and not miss else "other"
+        kind = "padding_zeros" if zeros and len(extra) == k - s_exp and not miss else "other"
         out.append(("spurious_eigs", f"{len(extra)} returned eigenvalue(s) {np.round(extra[:6], 5).tolist()} are not "
                     f"in the spectrum {np.round(want, 5).tolist()} (max_iters={m}, steps due={s_exp})",
                     {"spurious_kind": kind, "n_spurious": len(extra)}))
@@ -208,7 +227,12 @@ def check_eigs(A, ev, Vd, m, tol, dt, want, etol_rel, s_exp):
     Ac = A.astype(np.complex128)
     nv = np.linalg.norm(V, axis=0)
     res = np.linalg.norm(Ac @ V - V * np.asarray(ev)[None, :], axis=0)
-    bad = [j for j in range(m) if nv[j] > 0.5 and res[j] > 5 * etol * nv[j]]
+    # genuine pairs only: skip the (near-)zero eigenvalues when padding zeros are present (numpy's basis of the
+    # zero eigenspace of the padded buffer is arbitrary)
+    padded = k > s_exp
+    genuine = [j for j in range(k) if any(abs(ev[j] - w) <= etol for w in want)
+               and not (padded and abs(ev[j]) <= 10 * etol)]
+    bad = [j for j in genuine if nv[j] > 0.5 and res[j] > 5 * etol * nv[j]]
     if bad and not miss:
         out.append(("eigs", f"returned eigenvectors {bad[:5]} have residual {kf.fmt(res[bad].max())}", {"at": "vectors"}))
     return out
@@ -259,7 +283,7 @@ def mk_viol(item, clause, detail, m, extra, n, kdim, batched, api, dt, tol):
     return Violation(PROP, clause, case, at, detail, replay=rp)
 
 
-def run_family(item, A, vs, kdims, Ks, wants, etol_rel, detect_ok, ms):
+def run_family(item, A, vs, kdims, Ks, wants, etol_rel, detect_ok, ms, hss=None):
     """vs: start vectors (1 = single run, >1 = one batched run).  wants[b]: expected eigenvalue multiset of
     arnoldi_eigs with >= n steps (None: not asserted)."""
     import cola
@@ -275,6 +299,7 @@ def run_family(item, A, vs, kdims, Ks, wants, etol_rel, detect_ok, ms):
     viol, traces, nchk = [], [], 0
     batched = len(vs) > 1
     run_n = None
+    hss = hss if hss is not None else [None] * len(vs)
     for m in ms:
         if item.get("only_m") is not None and m != item["only_m"]:
             continue
@@ -286,7 +311,7 @@ def run_family(item, A, vs, kdims, Ks, wants, etol_rel, detect_ok, ms):
                 traces += tr
                 Qd, Hd = np.asarray(Q.to_dense()), np.asarray(H.to_dense())
                 res = check_single(A_t, v, Qd, Hd, m, tol, dt, kdims[0], detectable, Ks[0],
-                                   steps=tr[0]["fin"]["steps"] if len(tr) == 1 else None)
+                                   steps=tr[0]["fin"]["steps"] if len(tr) == 1 else None, hs=hss[0])
                 if not isinstance(res, tuple):
                     res = (res, True)
                 res, count_bad = res
@@ -349,7 +374,7 @@ def run_family(item, A, vs, kdims, Ks, wants, etol_rel, detect_ok, ms):
                                             "arnoldi", dt, tol))
                 for b in range(nb):
                     res = check_single(A_t, V[:, b], QA[b], HA[b], m, tol, dt, kdims[b], detectable, Ks[b],
-                                       assert_count=False, assert_padding=uniform, steps=bsteps)
+                                       assert_count=False, assert_padding=uniform, steps=bsteps, hs=hss[b])
                     res = res[0] if isinstance(res, tuple) else res
                     for cl, de, ex in res:
                         ex = dict(ex)
@@ -450,13 +475,15 @@ def observe_random(item):
     jmax = 6 if item["dt"] in ("f64", "c128") else 4
     thr = 1e-6 if item["dt"] in ("f64", "c128") else 1e-2
     sA = float(np.abs(A).sum(1).max())
-    Ks = []
+    Ks, hss = [], []
+    mmax = min(n, max(item["ms"]))
     for v, kd in zip(vs, kdims):
-        Qr, hs = kf.ref_krylov(A, v, min(jmax, kd if kd_ok else jmax, n))
+        Qr, hs = kf.ref_krylov(A, v, min(n, max(jmax, min(kd, mmax) + 1)) if kd_ok else min(jmax, n))
         j = 1
-        while j < Qr.shape[1] and hs[j - 1] > thr * sA * max(1.0, condV * 1e-2):
+        while j < min(Qr.shape[1], jmax, kd if kd_ok else jmax) and hs[j - 1] > thr * sA * max(1.0, condV * 1e-2):
             j += 1
         Ks.append(Qr[:, :j])
+        hss.append(hs if kd_ok else None)
     etol_rel = max(rt, 1e3 * eps * condV, 10 * item["tol"])
     eig_ok = kd_ok and etol_rel < 1e-2 and (near > 10 * etol_rel * sA or kind.startswith("herm"))
     if not eig_ok:
@@ -464,7 +491,7 @@ def observe_random(item):
     kd_use = kdims if kd_ok else [None] * nb
     if not kd_ok:
         wants = [None] * nb
-    return run_family(item, A, vs, kd_use, Ks, wants, etol_rel, kd_ok, item["ms"])
+    return run_family(item, A, vs, kd_use, Ks, wants, etol_rel, kd_ok, item["ms"], hss=hss)
 
 
 def default_object_check(seed):
